@@ -61,9 +61,9 @@ add("C07",
     "DESIGN.md §5 C07")
 
 add("C08",
-    "Proved: toGeometryOpts maps ParseOptions to index options only; RequireValid: Parse/parseJSON return a valid object under RequireValid for Point, SimplePoint, LineString, Polygon, Rect, MultiPoint, MultiLineString, MultiPolygon (parseJSONMultiPoint fully under contract incl. frames - this is the obligation that failed before fix 3b4853f); the Circle recognition path of parseJSONFeature is under contract for both point representations. Index independence is carried by the protocol contracts that this check also discharges (compressed segment searches and number codec of C04, collection.Search on both paths and parseInitRectIndex of C10: callers see only the set-based protocol); no relational two-run statement is generated. RequireValid through Feature/GeometryCollection/FeatureCollection (needs a two-state frame over the object tree).",
+    "Proved: toGeometryOpts maps ParseOptions to index options only; RequireValid: Parse/parseJSON return a valid object under RequireValid for Point, SimplePoint, LineString, Polygon, Rect, MultiPoint, MultiLineString, MultiPolygon (parseJSONMultiPoint fully under contract incl. frames - this is the obligation that failed before fix 3b4853f); the Circle recognition path of parseJSONFeature is under contract for both point representations. Index independence is carried by the protocol contracts that this check also discharges (compressed segment searches and number codec of C04, collection.Search on both paths and parseInitRectIndex of C10: callers see only the set-based protocol); no relational two-run statement is generated. The index BUILDERS are trusted leaves; the bounded index suite (identical Search answers under index kinds None/QuadTree/RTree and thresholds 1, n, n+1, 64, against brute force) stands in for them. RequireValid through Feature/GeometryCollection/FeatureCollection (needs a two-state frame over the object tree).",
     "Partial: single-run postconditions only; the relational (two ParseOptions, same document) reading of the property is not expressible as one function contract in this framework. parse*Coords helpers trusted.",
-    "DESIGN.md §5 C08")
+    "DESIGN.md §5 C08", bounded="index")
 
 add("C09",
     "Proved: every Object/Spatial method of the leaf kinds, Feature, Circle and collection (incl. methods promoted into MultiPoint, MultiLineString, MultiPolygon, GeometryCollection, FeatureCollection) refines the interface contracts (behavioural subtyping obligations, 621) phrased over the model functions oContains/oIntersects/sp*; Within == Contains swapped by construction; symmetry of oIntersects for all 25 leaf pairs and one level of Feature wrapping (symLeaf/symGeom); Feature and SimplePoint/Point transparency lemmas; Rect == its 5-point polygon (rectRingPip and corollaries); intersects => rectangles meet and contains => rectangle covers for the listed pairs.",
@@ -90,10 +90,19 @@ add("C13",
     "Numeric facts about the spherical kernels are axioms (ANormalizeId, ADistanceToHaversineMono/Zero) and trusted pureas contracts of geo.*; makeCircleObject trusted (shape of the polygon approximation, serialisation round trip not covered). Known finding X1 (point vs Feature-wrapped circle).",
     "DESIGN.md §5 C13")
 
-# C16 / C17 entries are maintained by hand (govframe): carried over from the existing manifest
+# C16 / C17: the frame checker (govframe, go/ssa) decides the frame clauses; C17 additionally runs the govc obligations tagged C17
+# (JSON writers, NewFeature member rule) and merges both into one evidence file (`govc check --frame`)
 _old = {c["property_id"]: c for c in json.load(open("/verif/MANIFEST.json"))["checks"]}
-for pid in ("C16", "C17"):
-    checks.append(_old[pid])
+checks.append(_old["C16"])
+c17 = dict(_old["C17"])
+c17["quick_cmd"] = "./bin/govc check C17 --tier quick --frame"
+c17["thorough_cmd"] = "./bin/govc check C17 --tier thorough --frame"
+c17["engine"] = "govc"
+c17["level_claimed"] = dict(c17["level_claimed"])
+if "Also (govc)" not in c17["level_claimed"]["text"]:
+    c17["level_claimed"]["text"] += " Also (govc): the JSON writers of every kind and their helpers are panic-free under the ownership invariant of the extra coordinate values (WriteInv), JSON()/String()/MarshalJSON() are AppendJSON(nil) converted, and NewFeature never stores the empty object text as members (the rule whose violation was finding F7: `,,` in the output)."
+c17["technique"] = TECH + "; frame clauses by a modular effect analysis over go/ssa (govframe), merged into the same evidence"
+checks.append(c17)
 
 add("C18",
     "processPoints is proved against a cyclic-sequence specification (convex iff all cyclic turns have one sign; clockwise iff the shoelace sum is positive) for point sequences of any length, open or explicitly closed, via code-level fold invariants and bridging lemmas to the property-level cyclic definitions; makeSeries stores the flags; Convex()/Clockwise() accessors.",
